@@ -49,6 +49,7 @@ InitSt(c) ==
    call |-> [p \in Procs(c) |-> "none"],        \* none | open | granted | refused
    cancelled |-> [p \in Procs(c) |-> FALSE],
    failed |-> [p \in Procs(c) |-> FALSE],       \* p's latest own attempt failed
+   pre |-> [p \in Procs(c) |-> FALSE],          \* p's context was done already when its Acquire was called
    lw |-> [p \in Procs(c) |-> FALSE],           \* finding P2: Broadcast between failed attempt and sleep
    since |-> [p \in Procs(c) |-> -1],           \* instant p was first seen asleep in this call
    status |-> [p \in Procs(c) |-> "idle"],      \* last observed status
@@ -76,6 +77,10 @@ Ev(c, s, e) ==
          LET room == Held(c, s) < c.limit IN
          IF e.ok # room
          THEN Fail(s, "gate", IF e.ok THEN "delegate granted with no capacity free" ELSE "delegate refused with capacity free")
+         ELSE IF e.ok /\ e.by = e.for /\ IsWaitKind(c) /\ s.pre[e.by]
+         THEN \* C13, last clause: a call made with a context that is done already (or to the deadline limiter after its deadline)
+              \* is refused without consuming capacity - not even for an instant
+              Fail([s EXCEPT !.tok[e.for] = @ + 1], "bound", "a call made with an already-cancelled context (or after the deadline) took a token from the delegate")
          ELSE IF e.ok /\ e.by = e.for
          THEN [s EXCEPT !.tok[e.for] = @ + 1, !.lw[e.by] = FALSE, !.failed[e.by] = FALSE]
          ELSE IF e.ok THEN [s EXCEPT !.transit[e.for] = @ + 1]
@@ -128,7 +133,8 @@ Evs(c, s, evs, i) == IF i > Len(evs) THEN s ELSE Evs(c, Ev(c, s, evs[i]), evs, i
 (* ---- the step itself (environment side) --------------------------------------------------- *)
 StepAct(c, s, x, prev) ==
   CASE x.a = "start" /\ x.call = "acquire" ->
-         IF s.call[x.p] # "none" THEN Fail(s, "harness", "second acquire of a process") ELSE [s EXCEPT !.call[x.p] = "open"]
+         IF s.call[x.p] # "none" THEN Fail(s, "harness", "second acquire of a process")
+         ELSE [s EXCEPT !.call[x.p] = "open", !.pre[x.p] = s.cancelled[x.p] \/ (c.kind = "deadline" /\ s.now > c.deadline)]
     [] x.a = "start" /\ x.call = "release" ->
          IF s.call[x.p] # "granted" THEN Fail(s, "harness", "release without a grant")
          ELSE IF c.blackbox THEN [s EXCEPT !.call[x.p] = "done", !.tok[x.p] = 0]
@@ -172,6 +178,8 @@ Soft(c, s, o) ==
     \cup {<<"conserve", p>> : p \in {q \in Procs(c) : s.transit[q] > 0}}
     \cup (IF c.kind = "queue" /\ o.q >= 0 /\ o.q # Cardinality(Asleep(o, c)) THEN {<<"backlog", "size">>} ELSE {})
     \cup (IF c.kind = "queue" /\ Cardinality(Asleep(o, c)) > c.qmax THEN {<<"backlog", "over">>} ELSE {})
+    \* C02, last sentence: with every granted listener completed and nobody waiting, the backlog is empty
+    \cup (IF c.kind = "queue" /\ o.q > 0 /\ Held(c, s) = 0 /\ Asleep(o, c) = {} THEN {<<"conserve", "backlog not empty">>} ELSE {})
 
 Init == l = 1 /\ ok = FALSE /\ cfg = [kind |-> "none"] /\ st = [err |-> ""]
 
@@ -227,9 +235,9 @@ Step ==
                   PrintReject(e, "bound", "a cancelled caller that no gate holds had not returned when the step had settled (a completion was in progress)", e.step.p, s3)
              /\ SleptAtFullBacklog(cfg, st, e) =>
                   PrintReject(e, "backlog", "a caller went to sleep although the backlog already held its maximum of blocked callers when it arrived", e.step.p, s3)
-             /\ IF s3.err # "" /\ s3.class = "early"
-                THEN \* an unjustified refusal leaves the book-keeping intact (the caller is out, holding nothing): report it and go
-                     \* on, so that what the early return did to the other callers is judged as well
+             /\ IF s3.err # "" /\ s3.class \in {"early", "order"}
+                THEN \* an unjustified refusal, or a hand-off to the wrong caller, leaves the book-keeping intact (who holds what is
+                     \* still known): report it and go on, so that what it did to the other callers and to the counts is judged too
                      /\ PrintReject(e, s3.class, s3.err, "", s3) /\ UNCHANGED <<ok, cfg>>
                      /\ st' = [s4 EXCEPT !.err = "", !.class = ""]
                      /\ \A r \in Soft(cfg, s3, e.obs) : PrintReject(e, r[1], "stable state", r[2], s3)
